@@ -254,6 +254,42 @@ class Job:
             shutil.rmtree(d, ignore_errors=True)
 
 
+class PluginJob(Job):
+    """C05: the object engine with every erased object made by a separately compiled plugin module
+    (cdylib built from the same corpus), loaded through the real dynamic loader."""
+
+    def __init__(self, quick, thorough, label, toolchain=None, rustflags=None, host_release=False):
+        super().__init__("objsim", "obj", quick, thorough, release_in=("quick", "thorough") if host_release else (), label=label)
+        self.toolchain = toolchain
+        self.rustflags = rustflags
+        self.variant = (toolchain or "stable") + ("-" + "".join(c for c in (rustflags or "") if c.isalnum()) if rustflags else "")
+        self.plug_target = os.path.join(SIM, "target", "plug-" + self.variant)
+
+    def plugin_path(self):
+        return os.path.join(self.plug_target, "release", "libmodplug.so")
+
+    def build(self, tier):
+        super().build(tier)
+        key = ("plugin", self.variant)
+        if key in _built:
+            return
+        cmd = ["cargo"] + (["+" + self.toolchain] if self.toolchain else []) + ["build", "--offline", "-q", "-p", "modplug", "--release", "--target-dir", self.plug_target]
+        env = dict(CARGO_ENV)
+        if self.rustflags:
+            env["RUSTFLAGS"] = self.rustflags
+        t0 = time.time()
+        p = subprocess.run(cmd, cwd=SIM, env=env, stdout=subprocess.PIPE, stderr=subprocess.STDOUT, text=True)
+        if p.returncode != 0:
+            raise HarnessError("build of the plugin module (%s) failed:\n%s" % (self.variant, "\n".join(p.stdout.splitlines()[-30:])))
+        _built.add(key)
+        log("# built plugin module modplug [%s] in %.1fs" % (self.variant, time.time() - t0))
+
+    def env(self):
+        e = dict(os.environ)
+        e.update({"SIM_PLUGIN": self.plugin_path(), "SIM_FOCUS": "life"})
+        return e
+
+
 def parse_plan_text(txt):
     plan = {"engine": "", "cfg": {}, "steps": []}
     for line in txt.replace(";", "\n").splitlines():
@@ -398,10 +434,10 @@ def union_count(paths):
 
 def run_job(prop, job, tier, seed, report, spec=None):
     """Runs one job; appends to `report`; returns list of violations (dicts with replay info)."""
-    job.build(tier)
     n = int(job.runs[tier])
     if n <= 0:
         return []
+    job.build(tier)
     t0 = time.time()
     nchunks = max(1, min(WORKERS * 4, n // 50))
     bounds = [(n * i // nchunks, n * (i + 1) // nchunks) for i in range(nchunks)]
